@@ -127,11 +127,18 @@ def indexLine (bs : Int) (st : IdxState) (line : Bytes) : R IdxState := do
     -- the last line of the file may have no line ending: slice only when the line ends with LF
     let keep := if line.getLast? = some 10 then line.take (line.length - st.lineEndBytes.toNat) else line
     let st ← match st.rpl with
-      | none => throw .type
+      | none =>
+        -- no header seen yet: `line_end_bytes` is None. A terminated line is sliced with `-None` (TypeError); an
+        -- unterminated one (necessarily the last line) is taken whole and `residues_per_line` becomes its length.
+        if line.getLast? = some 10 then throw .type
+        else pure { st with rpl := some (keep.length : Int) }
       | some r => pure (if r = 0 then { st with rpl := some (keep.length : Int) } else st)
     let st := { st with buffer := st.buffer ++ keep }
     let st := { st with maxBuffered := max st.maxBuffered st.buffer.length }
-    if (st.buffer.length : Int) > bs then pure (processSeqBuffer st) else pure st
+    if (st.buffer.length : Int) > bs then
+      -- process_seq_buffer() before any header adds to `seq_length = None`: TypeError
+      if st.name.isNone then throw .type else pure (processSeqBuffer st)
+    else pure st
 
 def indexFasta (lines : List Bytes) (bs : Int) : R IdxState := do
   let st ← lines.foldlM (indexLine bs) {}
